@@ -157,7 +157,7 @@ ResolveFrom(steps, i, term, t, isCall) ==
               IF ~f.ok THEN [ok |-> FALSE, term |-> "", t |-> "NONE", err |-> FALSE, call |-> FALSE]
               ELSE ResolveFrom(steps, i + 1, term \o "." \o st.n, f.t, FALSE)
 
-ArgRoot(k) == CASE k = 0 -> "ARG0" [] k = 1 -> "ARG1" [] OTHER -> "ARG2"
+ArgRoot(k) == "ARG" \o ToString(k)
 Fail == [ok |-> FALSE, term |-> "", t |-> "NONE", err |-> FALSE, call |-> FALSE]
 \* first step [arg |-> 0]: a path from the source operand.  [arg |-> k], k >= 1: the "$k" form - "$1" is the
 \* source operand itself, "$k" (k >= 2) additional argument k-1; the path proper starts at step 2.
